@@ -38,6 +38,17 @@ CHECKS.update({
  'C10': (E3, 'reshape: ALL ordered pairs of ordered factorisations (with inserted singleton modes) of the element counts {4,6,8,12} (to 36 thorough), tensors and operators; permute: ALL permutations up to order 4 (6 thorough), tensors and operators; to_qtt/qtt_to_tens: all shapes over {1,2,4,8}(16) and mode_size 3 powers; exact mode sizes and value within C*eps incl. complex phase; loose eps by the complete decision walk on [1e-8,0.3).',
          'error budget constants C from DESIGN §5 C10', '§5 C10'),
 })
+EM = 'bounded exhaustive enumeration of operand structures x finite menus (eps, internal RNG seeds, initial guesses, solver options) on the real library, dense reference'
+CHECKS.update({
+ 'C11': (EM, 'fast_matvec, dmrg_hadamard, amen_mv, amen_mm on all operand structures of order 1..4 (6 thorough) with rectangular distinct modes and singleton substitutions, ranks {1,2,4}x{1,3}, exact-rank and decaying cores, eps in {1e-12,1e-8,1e-4,1e-1}, seeds 0..2 (0..7), initial guess in {none, rank 1, rank 5, zero}, real and complex (DMRG): shape and error <= 10*eps.',
+         'finite seed menu covered completely; python backend', '§5 C11'),
+ 'C12': (EM, 'Every amen_solve configuration with <= 3 (4 thorough) deviations from the default over the axes order, sizes, system class (Laplacian, diagonally dominant, SPD), operator rank, rhs rank, eps, preconditioner {None,c,r}, local solver {direct, GMRES, BiCGSTAB}, initial guess, seed: dense residual <= 100*eps.',
+         'finite seed menu; python backend', '§5 C12'),
+ 'C13': (EM, 'x/y, s/y, x/s, elementwise_divide(eps, preconditioner, starting_tensor) for y = 1+z*z in [1,5], orders 2..4 (5), sizes with singleton substitutions, x ranks 1..3, z ranks 1..2, seeds: |q*y-x| <= 100*eps|x|; x/s exact.',
+         'finite seed menu', '§5 C13'),
+ 'C14': (EM + '; monitor on EVERY callback invocation', 'dmrg_cross and function_interpolate (uni-/multivariate) on all shapes over {2,3,4}^d, d=2,3, plus uneven / tiny / larger shapes, targets of exact TT rank 1..4 and a smooth function, eps in {1e-3,1e-6,1e-10}, seeds, start tensors of rank 1/3 (over-parameterised too): every index / value matrix handed to the user function is validated (shape M x d, column ranges / membership), result error <= 100*eps.',
+         'finite seed menu', '§5 C14'),
+})
 PENDING = {}
 ALL = ['C%02d' % i for i in range(1, 21)]
 
